@@ -156,6 +156,9 @@ def run_case(case):
             with open(os.path.join(sb.vpdir, "err.%s" % sub["id"]), "wb") as f:
                 # (optionally more than a pipe buffer on the inner command's stderr)
                 f.write(("ERR-%s\n" % sub["id"] + (BIGERR if sub.get("bigerr") else "")).encode())
+            if sub.get("late_err"):
+                # the inner command closes its stdout first and writes its stderr 150 ms later
+                open(os.path.join(sb.vpdir, "late.%s" % sub["id"]), "w").close()
             if sub["inner"] == "failing":
                 with open(os.path.join(sb.vpdir, "rc.%s" % sub["id"]), "w") as f:
                     f.write("3")
@@ -227,6 +230,9 @@ def symptom(case, exp, r, recs):
         if sub["inner"] in ("simple", "pipeline", "failing", "var", "nested", "quoted-args", "function", "function2"):
             if ("ERR-%s\n" % sub["id"]).encode() not in r.err:
                 return "inner-stderr-lost"
+    nbig = sum(1 for sub in subs if sub.get("bigerr"))
+    if nbig and r.err.count(b"E") < nbig * (len(BIGERR) - 1):
+        return "inner-stderr-truncated"
     for sub in subs:
         if sub["inner"] in ("notfound", "unparsable") and b"cicada" not in r.err:
             return "no-diagnostic"
@@ -274,7 +280,7 @@ def judge(case):
                 res["minimal_line"] = l2
                 sub = p[1]
                 return ("violated", "C11:%s:%s:inner=%s:output=%s%s:%s%s" % (
-                    sub["form"], case["ctx"], sub["inner"], sub["cls"], "+large-stderr" if sub.get("bigerr") else "", s2,
+                    sub["form"], case["ctx"], sub["inner"], sub["cls"], ("+large-stderr" if sub.get("bigerr") else "") + ("+stderr-after-stdout-closed" if sub.get("late_err") else ""), s2,
                     "" if len(parts) == 1 else ":with-affixes"), res)
     forms = "+".join(sorted({p[1]["form"] for p in subs}))
     return ("violated", "C11:%s:%s:several-substitutions-in-one-word(%d):%s" % (forms, case["ctx"], min(len(subs), 2), sym), res)
@@ -296,6 +302,8 @@ def gen_case(rng, k):
                               "out": rng.choice(OUTPUTS[cls]), "id": "K%d" % i}))
         if inner in ("simple", "pipeline", "failing", "var") and rng.random() < 0.06:
             parts[-1][1]["bigerr"] = True
+        elif inner in ("simple", "failing", "var") and rng.random() < 0.04:
+            parts[-1][1]["late_err"] = True
     lit = rng.choice(lits)
     if lit:
         parts.append(("lit", lit))
@@ -330,7 +338,7 @@ def run(tier, seed):
                 "/ assignment / here-string context; inner commands: observer vp_out (simple, in a pipeline, failing, "
                 "named through a shell variable, run by a function (one command, two commands), with quoted arguments containing ) ( \\ and quotes, containing a substitution of the other spelling), a builtin, a not-found and an unparsable command; output texts from "
                 "18 classes ($1, ${x}, $NAME, backslashes, *, braces, regex-special, interior/trailing newlines, "
-                "leading/trailing blanks, nested substitution syntax, operators, quotes, empty, unicode, 90 KB = more than a pipe buffer); 6% of the inner commands also write 100 KB to stderr.  Non-trivial "
+                "leading/trailing blanks, nested substitution syntax, operators, quotes, empty, unicode, 90 KB = more than a pipe buffer); 6% of the inner commands also write 100 KB to stderr (all of it has to arrive), 4% close their stdout and write their stderr 150 ms later.  Non-trivial "
                 "= always; distinct by full case.")
     rep.assumptions = ["unquoted results are compared modulo blank/newline runs (field splitting unspecified)",
                        "3000 rewrite steps for <=3 substitutions means non-termination"]
